@@ -144,6 +144,20 @@ static void mzd_t_free(mzd_t *M) {
 #endif  //__M4RI_ENABLE_MZD_CACHE
 }
 
+#ifdef M4RI_VERIF
+/* verification hook: number of mzd_t headers currently handed out by the header cache (-1: cache disabled) */
+long m4ri_verif_mzd_headers_in_use(void) {
+#if __M4RI_ENABLE_MZD_CACHE == 0
+  return -1;
+#else
+  long n = 0;
+  for (mzd_t_cache_t *cache = &mzd_cache; cache; cache = cache->next)
+    for (int i = 0; i < 64; ++i) n += (cache->used >> i) & 1;
+  return n;
+#endif
+}
+#endif
+
 mzd_t *mzd_init(rci_t r, rci_t c) {
   assert(sizeof(mzd_t) == 64);
   mzd_t *A = mzd_t_malloc();
